@@ -31,7 +31,7 @@ ASSUME TLCSet(2, {})
 Report(name, ok) == IF ok THEN TRUE ELSE TLCSet(2, TLCGet(2) \cup {name})
 CheckAll == /\ Report("P_D1_Atomicity", P_D1_Atomicity) /\ Report("P_D2_Termination", P_D2_Termination) /\ Report("P_D3_Agreement", P_D3_Agreement)
             /\ Report("P_D4_NoEarlySecret", P_D4_NoEarlySecret) /\ Report("P_D5_Conformance", P_D5_Conformance)
-Post == JsonSerialize("out/violated.json", [violated |-> SetToSeq(TLCGet(2))])
+PostWrite == JsonSerialize("out/violated.json", [violated |-> SetToSeq(TLCGet(2))])
 
 LastStep == IF sched = <<>> THEN <<>> ELSE
             LET s == sched[Len(sched)] IN
